@@ -51,6 +51,7 @@ type world struct {
 	phase    int
 	led      *refgc.Ledger
 	multi    bool // more than one collectable object with a finaliser for one key was seen
+	twice    bool // a finaliser was registered on an object that already had one
 }
 
 var curWorld *world
@@ -67,6 +68,9 @@ func seam(obj interface{}, fin interface{}) {
 	if fin == nil {
 		delete(w.fins, v)
 		return
+	}
+	if w.fins[v] != nil {
+		w.twice = true // the real runtime.SetFinalizer throws "finalizer already set"
 	}
 	w.fins[v] = fin
 }
@@ -314,6 +318,10 @@ func (w *world) apply(e int) (bad []string, result string) {
 		if p := recover(); p != nil {
 			bad = append(bad, "go-panic")
 			result = fmt.Sprint("panic: ", p)
+		}
+		if w.twice {
+			w.twice = false
+			bad = append(bad, "go-setfinalizer-twice")
 		}
 	}()
 	if k := evVal(e); k == w.touched {
@@ -877,14 +885,14 @@ func poolFamily(poolKind string, depth, budget int) *core.Family {
 func partAFamilies(tier string) []*core.Family {
 	if tier == "thorough" {
 		return []*core.Family{
-			poolFamily("clone", 6, 120),
-			poolFamily("unsafe", 6, 120),
-			poolFamily("clone", 8, 240),
-			poolFamily("unsafe", 8, 240),
+			poolFamily("clone", 7, 170),
+			poolFamily("unsafe", 7, 170),
+			poolFamily("clone", 8, 170),
+			poolFamily("unsafe", 8, 170),
 		}
 	}
 	return []*core.Family{
-		poolFamily("clone", 6, 40),
-		poolFamily("unsafe", 6, 40),
+		poolFamily("clone", 6, 45),
+		poolFamily("unsafe", 6, 45),
 	}
 }
